@@ -496,6 +496,7 @@ func releasedElementsNotHandedOnAgain(c *Check, r *repoCtx) {
 		if ir == nil {
 			continue
 		}
+		k := 0
 		walkBlock(ir.Body, nil, func(n Node, _ []Guard) {
 			lp, ok := n.(*LoopN)
 			if !ok || lp.Kind != "range" || lp.Over == "" {
@@ -532,7 +533,8 @@ func releasedElementsNotHandedOnAgain(c *Check, r *repoCtx) {
 			if !releases {
 				return
 			}
-			c.Ob(rule, strings.TrimPrefix(name, "pkg/rpc.")+"/range "+localNameRx.ReplaceAllString(lp.Over, "$$"), len(bad) == 0, r.pos(lp.Pos), fmt.Sprintf("the loop releases its elements one by one; returns of the whole ranged slice from inside the loop: %v", bad))
+			k++
+			c.Ob(rule, fmt.Sprintf("%s/releasing-loop#%d over %s", strings.TrimPrefix(name, "pkg/rpc."), k, localNameRx.ReplaceAllString(lp.Over, "$$")), len(bad) == 0, r.pos(lp.Pos), fmt.Sprintf("the loop releases its elements one by one; returns of the whole ranged slice from inside the loop: %v", bad))
 		})
 	}
 	c.Floor(rule, 1)
